@@ -33,7 +33,9 @@ func (p *pathRecorder) RoundTrip(r *http.Request) (*http.Response, error) {
 	p.mu.Lock()
 	p.paths = append(p.paths, r.URL.Path)
 	p.mu.Unlock()
-	return &http.Response{StatusCode: 200, Status: "200 OK", Body: io.NopCloser(strings.NewReader("")), Request: r, Header: http.Header{}}, nil
+	// A body of plausible tile size, so that a client-side cache (if one is
+	// ever added) treats the answer like a real tile.
+	return &http.Response{StatusCode: 200, Status: "200 OK", Body: io.NopCloser(bytes.NewReader(make([]byte, 256*32))), Request: r, Header: http.Header{}}, nil
 }
 
 // sumdbServer serves /latest and tlog tiles (height 8) of a generated tree at
@@ -146,7 +148,12 @@ func c18(tier string) int {
 	last := func() string {
 		rec.mu.Lock()
 		defer rec.mu.Unlock()
-		p := rec.paths[len(rec.paths)-1]
+		if len(rec.paths) != 1 {
+			n := len(rec.paths)
+			rec.paths = rec.paths[:0]
+			return fmt.Sprintf("<%d requests instead of 1>", n)
+		}
+		p := rec.paths[0]
 		rec.paths = rec.paths[:0]
 		return p
 	}
@@ -221,11 +228,12 @@ func c18(tier string) int {
 		maxN = 1200
 	}
 	origin := "go.sum database tree"
-	u := uni.New(ev.Seed(), maxN, nil)
+	const bigN = 70000
+	u := uni.New(ev.Seed(), bigN, nil)
 	la := wh.LogCfg{Origin: origin, Key: u.K1}
 	// Stored hashes of the whole tree, via the reference tlog.
 	srvAll := &sumdbServer{}
-	for i := 0; i < maxN; i++ {
+	for i := 0; i < bigN; i++ {
 		hs, err := tlog.StoredHashes(int64(i), u.Main.Data[i], srvAll)
 		if err != nil {
 			ev.Internal("StoredHashes: %v", err)
@@ -233,12 +241,15 @@ func c18(tier string) int {
 		srvAll.hashes = append(srvAll.hashes, hs...)
 	}
 	// Sanity: tlog's root equals the RFC 6962 reference root.
-	th, _ := tlog.TreeHash(int64(maxN), srvAll)
-	if !bytes.Equal(th[:], u.Main.Root(maxN)) {
+	th, _ := tlog.TreeHash(int64(bigN), srvAll)
+	if !bytes.Equal(th[:], u.Main.Root(bigN)) {
 		ev.Internal("tlog root and ref6962 root disagree")
 	}
-	cps := make([][]byte, maxN+1)
+	cps := map[int][]byte{}
 	for n := 1; n <= maxN; n++ {
+		cps[n] = u.Sign(uni.Body(origin, uint64(n), u.Main.Root(n)), u.K1.Signer)
+	}
+	for _, n := range []int{4096, 65535, 65536, 65537, 65613, bigN} {
 		cps[n] = u.Sign(uni.Body(origin, uint64(n), u.Main.Root(n)), u.K1.Signer)
 	}
 	cl, _ := config.NewLog(origin, u.K1.VKey, "http://sumdb.test")
@@ -247,6 +258,15 @@ func c18(tier string) int {
 	for to := 2; to <= maxN; to++ {
 		for from := 1; from < to; from++ {
 			pairs = append(pairs, pair{from, to})
+		}
+	}
+	// Pairs whose proofs touch full tiles above level 0 (to >= 65536), incl.
+	// the same tile index at two levels in one proof computation.
+	for _, to := range []int{65535, 65536, 65537, 65613, bigN} {
+		for _, from := range []int{1, 100, 128, 255, 256, 257, 300, 511, 512, 4096, 65535, 65536} {
+			if from < to {
+				pairs = append(pairs, pair{from, to})
+			}
 		}
 	}
 	var mu sync.Mutex
@@ -328,6 +348,6 @@ func c18(tier string) int {
 	run.Set("evaluations", evals)
 	run.Set("distinct_nontrivial", int(evals))
 	run.Set("exhaustive", true)
-	run.Set("rule", fmt.Sprintf("addressing: for every level 0..7, every index 0..2100 plus every carry boundary of the x%%03d encoding up to 10^9 (+-1), widths 1..256 (all widths on indices <= 40 and around multiples of 1000, 8 boundary widths elsewhere): the path requested by SumDBClient.TileData / FullLeavesAtOffset / PartialLeavesAtOffset (observed at the HTTP transport) equals tlog.Tile.Path(). Proofs: the real sumdb.FeedLog (interval 0) for ALL pairs 1 <= from < to <= %d against an in-process server that serves /latest and tlog tiles of a generated tree and rejects any tile that does not exist at that size or is requested with a wrong width; the proof handed to the witness must verify with the independent RFC 6962 reference and merkle/proof, and (boundary pairs and every 7th pair) be accepted by the real witness. distinct_nontrivial = coordinates + feed cycles, all distinct by construction", maxN))
+	run.Set("rule", fmt.Sprintf("addressing: for every level 0..7, every index 0..2100 plus every carry boundary of the x%%03d encoding up to 10^9 (+-1), widths 1..256 (all widths on indices <= 40 and around multiples of 1000, 8 boundary widths elsewhere): the path requested by SumDBClient.TileData / FullLeavesAtOffset / PartialLeavesAtOffset (observed at the HTTP transport) equals tlog.Tile.Path(). Proofs: the real sumdb.FeedLog (interval 0) for ALL pairs 1 <= from < to <= %d plus 59 pairs reaching up to 70 000 leaves (full tiles above level 0, the same tile index at two levels within one proof) against an in-process server that serves /latest and tlog tiles of a generated tree and rejects any tile that does not exist at that size or is requested with a wrong width; the proof handed to the witness must verify with the independent RFC 6962 reference and merkle/proof, and (boundary pairs and every 7th pair) be accepted by the real witness. distinct_nontrivial = coordinates + feed cycles, all distinct by construction", maxN))
 	return run.Finish()
 }
